@@ -1,0 +1,7 @@
+//go:build !verif
+
+package bloomsearch
+
+// verifFSEvent is the no-op stand-in for the verification hook (see
+// verif_hooks_on.go, build tag "verif").
+func verifFSEvent(phase, op, path, path2 string, data []byte) {}
